@@ -3,6 +3,7 @@ module verif
 go 1.26
 
 require (
+	connectrpc.com/connect v1.18.1
 	github.com/segmentio/ksuid v1.0.4
 	google.golang.org/protobuf v1.36.3
 	reduction.dev/reduction v0.0.0
@@ -10,7 +11,6 @@ require (
 )
 
 require (
-	connectrpc.com/connect v1.18.1 // indirect
 	github.com/VictoriaMetrics/metrics v1.35.1 // indirect
 	github.com/aws/aws-sdk-go-v2 v1.32.8 // indirect
 	github.com/aws/aws-sdk-go-v2/aws/protocol/eventstream v1.6.7 // indirect
